@@ -32,7 +32,7 @@ ASSUMPTIONS = [
 PROBES = ["ops", "plain_ops", "show_ops", "save_ops", "show_and_save_ops", "bulk_save_ops", "bulk_save_all_invalid", "bulk_save_empty",
           "outcome_unchanged", "outcome_fixed", "outcome_failed", "preview_hsl", "preview_alpha", "preview_tuple", "preview_named",
           "plain_after_preview", "report_files_written", "tty_runs", "no_color_runs", "decoy_runs", "subprocess_phase",
-          "slot_ops", "invalid_pair_with_show", "chdir_ops", "report_after_chdir", "force_color_env_runs", "big_bulk_ops", "tmpdir_on_other_filesystem_runs", "report_blocked_ops", "save_with_report_blocked", "heavy_distinct_fix_ops", "odd_directory_names"]
+          "slot_ops", "invalid_pair_with_show", "chdir_ops", "report_after_chdir", "force_color_env_runs", "big_bulk_ops", "tmpdir_on_other_filesystem_runs", "report_blocked_ops", "save_with_report_blocked", "heavy_distinct_fix_ops", "odd_directory_names", "minimal_stdout_runs", "import_time_stdout_closed_runs", "iterator_container_ops"]
 
 QUICK = "cm_colors_quick_report.html"
 BULK = "cm_colors_bulk_report.html"
@@ -65,7 +65,9 @@ def generate(rseed, tier, idx):
     env = {"tty": e.random() < 0.4, "no_color": e.random() < 0.3,
            "decoys": e.random() < 0.5, "old_reports": e.random() < 0.3,
            "force_color": e.choice((None, None, None, None, "FORCE_COLOR", "TTY_COMPATIBLE", "CLICOLOR_FORCE")),
-           "tmp_other_fs": e.random() < 0.2}
+           "tmp_other_fs": e.random() < 0.2,
+           "stdout_kind": e.choice(("rec", "rec", "rec", "rec", "rec", "minimal")),
+           "close_import_stdout": e.random() < 0.25}
     n = g.randint(3, 20 if tier == "thorough" else 12)
     ops = []
     nslots = 0
@@ -126,7 +128,7 @@ def generate(rseed, tier, idx):
                 for _ in range(g.randint(1, 3)):
                     pairs.append([enc(g.choice(gen.POISON_STR)), enc(g.choice(gen.POISON_STR + ["#fff"]))])
                     pairs[-1][0] = enc(g.choice(gen.POISON_STR))
-            op = {"op": "bulk", "pairs": pairs, "mode": mode, "vr": vr, "bkind": kind}
+            op = {"op": "bulk", "pairs": pairs, "mode": mode, "vr": vr, "bkind": kind, "container": g.choice(("list", "list", "tuple", "iter", "gen"))}
             if g.random() < 0.55:
                 op["save"] = True
                 op["plain_first"] = g.random() < 0.5
@@ -207,6 +209,17 @@ def execute(trace):
         ctx = apiops.Ctx()
         seen_preview_change = False
         nontrivial = False
+        if env.get("stdout_kind") == "minimal":
+            bump("minimal_stdout_runs")
+        if env.get("close_import_stdout"):
+            # the streams that were sys.stdout/sys.stderr when cm_colors was IMPORTED are gone by now (the program
+            # re-pointed its output and closed the start-up streams): nothing may still hold on to them
+            bump("import_time_stdout_closed_runs")
+            for st in {id(x): x for x in (sys.__stdout__, sys.__stderr__, sys.stdout, sys.stderr) if x is not None}.values():
+                try:
+                    st.close()
+                except Exception:
+                    pass
 
         cur = ["cwd"]
         blocked = set()
@@ -225,7 +238,7 @@ def execute(trace):
 
         def run(op):
             with apiops.Effects(root, tty=env["tty"], no_color=env["no_color"], cwd_rel=cur[0], extra_env=env.get("force_color"),
-                                tmpdir_abs=other_tmp) as fx:
+                                tmpdir_abs=other_tmp, stdout_kind=env.get("stdout_kind", "rec")) as fx:
                 r = apiops.run_op(op, ctx)
             return r, fx.summary()
 
@@ -263,6 +276,8 @@ def execute(trace):
             orc = oracles[i]
             if sop["op"] in ("newpair", "make_on", "readable_on"):
                 bump("slot_ops")
+            if op.get("container") in ("iter", "gen"):
+                bump("iterator_container_ops")
             if op.get("bkind") in ("big", "big-fix"):
                 bump("big_bulk_ops")
             if op.get("bkind") == "big-fix":
@@ -429,7 +444,7 @@ def shrink(trace):
         if t["ops"]:
             yield t
     if any(trace["env"].get(k) for k in ("tty", "no_color", "decoys", "old_reports", "force_color", "tmp_other_fs")):
-        for k in ("tty", "no_color", "decoys", "old_reports", "force_color", "tmp_other_fs"):
+        for k in ("tty", "no_color", "decoys", "old_reports", "force_color", "tmp_other_fs", "close_import_stdout"):
             if trace["env"].get(k):
                 t = copy.deepcopy(trace)
                 t["env"][k] = None if k == "force_color" else False
